@@ -364,10 +364,11 @@ start:
 		return
 	}
 
-	// If v.maxVersion(0) is non-negative, then we loaded API
-	// versions. If the version for this request is negative, we
-	// know the broker cannot handle this request.
-	if v.maxVersion(0) >= 0 && v.maxVersion(req.Key()) < 0 {
+	// If any key has a version, then we loaded API versions (we do
+	// not look at Produce specifically: a controller-only listener
+	// does not advertise it). If the version for this request is
+	// negative, we know the broker cannot handle this request.
+	if len(v.maxVers) > 0 && v.maxVersion(req.Key()) < 0 {
 		pr.promise(nil, errBrokerTooOld)
 		return
 	}
